@@ -11,6 +11,7 @@ import (
 	"runtime/debug"
 	"strconv"
 	"strings"
+	"time"
 
 	"connectrpc.com/connect"
 	"connectrpc.com/vanguard"
@@ -485,7 +486,14 @@ func prepareRPC(st *rpcState, cfg *ConfigPlan) {
 		req.Proto, req.ProtoMajor, req.ProtoMinor = "HTTP/2.0", 2, 0
 		req.TransferEncoding = nil
 	}
-	st.ctx, st.cancel = context.WithCancel(context.WithValue(context.Background(), rpcKey{}, st))
+	base := context.WithValue(context.Background(), rpcKey{}, st)
+	if cp.CtxDeadlineS > 0 {
+		// (real time, far away: it never fires during a run; only its presence and distance can matter to the code under test)
+		var stop context.CancelFunc
+		base, stop = context.WithTimeout(base, time.Duration(cp.CtxDeadlineS)*time.Second)
+		_ = stop
+	}
+	st.ctx, st.cancel = context.WithCancel(base)
 	req = req.WithContext(st.ctx)
 	st.body = &SimBody{w: st.world, name: st.name + ".body", eofWithData: cp.EOFWithData, served: &st.served}
 	if rr.HasBody || declared > 0 {
@@ -720,17 +728,24 @@ func eqBytesSeq(a, b [][]byte) bool {
 
 // panicSite extracts the vanguard frames of a panic stack (file:line list), for the reader of a report.
 func panicSite(stack []byte) string {
+	// frames of the package under test (wherever the repository is checked out), innermost first, as file:line
 	var out []string
-	for _, line := range strings.Split(string(stack), "\n") {
-		line = strings.TrimSpace(line)
-		if strings.HasPrefix(line, "/repo/") && !strings.Contains(line, "internal/verifsim") {
-			if i := strings.IndexByte(line, ' '); i > 0 {
-				line = line[:i]
-			}
-			out = append(out, strings.TrimPrefix(line, "/repo/"))
-			if len(out) >= 4 {
-				break
-			}
+	lines := strings.Split(string(stack), "\n")
+	for k := 0; k+1 < len(lines); k++ {
+		fn := strings.TrimSpace(lines[k])
+		if !strings.HasPrefix(fn, "connectrpc.com/vanguard.") {
+			continue
+		}
+		loc := strings.TrimSpace(lines[k+1])
+		if i := strings.IndexByte(loc, ' '); i > 0 {
+			loc = loc[:i]
+		}
+		if i := strings.LastIndexByte(loc, '/'); i >= 0 {
+			loc = loc[i+1:]
+		}
+		out = append(out, loc)
+		if len(out) >= 4 {
+			break
 		}
 	}
 	return strings.Join(out, " < ")
